@@ -29,6 +29,30 @@ def split_do(line):
     return ctoks, t[p:q]
 
 
+def op_types(line):
+    """types of the ops of a DO case line (see harness/dopt.cpp), with their int arguments"""
+    t = line.split()[1:]
+    ctoks, ntoks = split_do(line)
+    q = len(ctoks) + len(ntoks)
+    nops = int(t[q]); q += 1
+    out = []
+    for _ in range(nops):
+        ty = int(t[q])
+        if ty == 0:
+            ln = 3 + int(t[q + 2])
+        elif ty == 1:
+            ln = 4 + int(t[q + 3])
+        elif ty == 2:
+            ln = 4
+        elif ty <= 6:
+            ln = 3
+        else:
+            ln = 2 + int(t[q + 1])
+        out.append((ty, [int(x) for x in t[q + 1:q + ln]]))
+        q += ln
+    return out
+
+
 def nets_for_hp(ntoks):
     """drop the weights: 'nn (d (c xo yo)*d w2)*' -> 'nn (d (c xo yo)*d)*'"""
     out = [ntoks[0]]; q = 1
@@ -57,7 +81,10 @@ def run_dopt(ctx, count, seed, modes=(0, 16)):
     impl, _, _ = common.run_both([harness, "run"], None, lines, chunk=300, timeout=300)
     res = {"runs": len(lines), "ops": 0, "best_ops": 0, "pass_ops": 0, "accepted": 0, "noleg": 0, "nontrivial": set(),
            "model_mismatch": [], "value_fail": [], "mono_fail": [], "legal_fail": [], "check_fail": [], "throw_fail": [], "crash": [],
-           "lines": lines, "impl": impl, "op_kinds": {}}
+           "lines": lines, "impl": impl, "op_kinds": {},
+           # the 2^31 streams: runs whose optimised value is >= 2^31 at construction; reordering ops (type 6 with maxNbCells >= 2, type 8
+           # with >= 2 cells) executed on them; how many of those changed the placement
+           "runs_value_ge_2p31": 0, "runs_value_ge_2p32": 0, "reordering_ops_at_value_ge_2p31": 0, "reordering_ops_at_value_ge_2p31_changing_placement": 0}
     minp, mmap = [], []     # OP model cases
     hinp, hmap = [], []     # HP frozen-orientation wirelength
     linp, lmap = [], []     # LC legality
@@ -78,6 +105,11 @@ def run_dopt(ctx, count, seed, modes=(0, 16)):
         frozen = [pl0[3 * k + 2] for k in range(len(cells))]
         hinp.append("HP " + hp_case(cells, pl0, frozen, ntoks)); hmap.append((i, -1, v0))
         prev_v, prev_pl = v0, pl0
+        big_ops = None
+        if v0 >= 2 ** 31:
+            res["runs_value_ge_2p31"] += 1
+            res["runs_value_ge_2p32"] += v0 >= 2 ** 32
+            big_ops = op_types(l)
         run_ops, run_expect, run_start = [], [], None
         def flush():
             if run_ops:
@@ -119,6 +151,9 @@ def run_dopt(ctx, count, seed, modes=(0, 16)):
                 res["check_fail"].append((l, s[-200:], "DetailedPlacer::check() fails after op %d: %s" % (k, ck)))
             if v > prev_v:
                 res["mono_fail"].append((l, s[-200:], "the optimised wirelength value rose from %d to %d at op %d" % (prev_v, v, k)))
+            if big_ops is not None and k < len(big_ops) and ((big_ops[k][0] == 6 and big_ops[k][1][1] >= 2) or (big_ops[k][0] == 8 and big_ops[k][1][0] >= 2)):
+                res["reordering_ops_at_value_ge_2p31"] += 1
+                res["reordering_ops_at_value_ge_2p31_changing_placement"] += pl != prev_pl
             if pl != prev_pl:
                 res["nontrivial"].add(l)
             hinp.append("HP " + hp_case(cells, pl, frozen, ntoks)); hmap.append((i, k, v))
@@ -209,6 +244,7 @@ def lp_summary(lp):
 
 
 def summary(res):
-    d = {k: res[k] for k in ("runs", "noleg", "ops", "best_ops", "pass_ops", "accepted", "op_kinds")}
+    d = {k: res[k] for k in ("runs", "noleg", "ops", "best_ops", "pass_ops", "accepted", "op_kinds", "runs_value_ge_2p31", "runs_value_ge_2p32",
+                             "reordering_ops_at_value_ge_2p31", "reordering_ops_at_value_ge_2p31_changing_placement")}
     d["shift_lp"] = lp_summary(res["lp"])
     return d
